@@ -74,7 +74,7 @@ def single_faults(events: list[dict], rng: Rng, all_errnos: bool) -> list[dict]:
 
 def fsize_limits(ref: dict, layout: list[tuple[int, int]], rng: Rng, tier: dict) -> list[int]:
     """Disk-capacity values to try: tensor boundaries +-1, 4 KiB boundaries +-1, file ends, seeded sample."""
-    sizes = [s for n, s in ref.get("sizes", {}).items() if not n.startswith(("src", "sub/", "second/"))]
+    sizes = [s for n, s in ref.get("sizes", {}).items() if not n.startswith(("src", "sub/", "second/", "decoy/"))]
     if not sizes:
         return []
     top = max(sizes)
@@ -176,7 +176,47 @@ def run_case(args) -> dict:
     crng = rng.sub("clock")
     recipe["cfg"]["clock"] = [crng.choice([0.0, 0.001, 0.05, 0.2, 2.0, 15.0]) for _ in range(7)]
     recipe["cfg"]["ext_preloaded"] = rng.sub("pre").chance(0.5)
-    return explore(recipe, rng.sub("faults"), tier, root, idx)
+    recipe["cfg"]["decoy_first"] = rng.sub("decoy").chance(0.5)
+    return _in_child(explore, recipe, rng.sub("faults"), tier, root, idx)
+
+
+def _in_child(fn, *args):
+    """Run one case in a forked child of the worker: every case starts from the same pristine post-import process, so a
+    result never depends on which cases the worker happened to run before (and a replay in a fresh process is faithful).
+    State carried from one save to the next *different* model is exercised deliberately instead (cfg.decoy_first)."""
+    import pickle
+
+    r, w = os.pipe()
+    pid = os.fork()
+    if pid == 0:
+        try:
+            os.close(r)
+            try:
+                payload = pickle.dumps(("ok", fn(*args)))
+            except BaseException as e:  # noqa: BLE001
+                import traceback
+
+                payload = pickle.dumps(("err", f"{type(e).__name__}: {e}\n{traceback.format_exc()[-1500:]}"))
+            mv = memoryview(payload)
+            while mv:
+                mv = mv[os.write(w, mv):]
+        finally:
+            os._exit(0)
+    os.close(w)
+    chunks = []
+    while True:
+        b = os.read(r, 1 << 20)
+        if not b:
+            break
+        chunks.append(b)
+    os.close(r)
+    os.waitpid(pid, 0)
+    if not chunks:
+        raise common.HarnessError("case child died without a result")
+    kind, val = pickle.loads(b"".join(chunks))
+    if kind == "err":
+        raise common.HarnessError(val)
+    return val
 
 
 def explore(recipe: dict, frng: Rng, tier: dict, root: str, idx: int, only_kinds: set | None = None,
@@ -353,7 +393,7 @@ def minimise(recipe: dict, plan: dict | None, cls: str, root: str, budget: int =
             r = still(cand)
             if r:
                 best_r, best_p, changed = cand, r[0], True
-        simple = {"verbose": False, "preexisting": "none", "path_form": "abs", "path_type": "str",
+        simple = {"verbose": False, "preexisting": "none", "path_form": "abs", "path_type": "str", "decoy_first": False,
                   "file_name": "model.onnx", "backend": "fd", "ext_preloaded": False, "clock": [0.0]}
         for k, v in simple.items():
             if calls[0] >= budget:
